@@ -167,6 +167,7 @@ def judge(params, out, events):
         for reqs in sessions:
             follow = 0
             auth_run = 0
+            auth_total = 0
             for i in range(1, len(reqs)):
                 prev = reqs[i - 1][2]
                 if prev.startswith('r') and not prev.endswith(('noloc', 'badloc')):
@@ -174,16 +175,23 @@ def judge(params, out, events):
                     auth_run = 0
                 elif prev == 's401':
                     auth_run += 1
+                    auth_total += 1
                     if auth_run > 1:
                         return ('two authentication retries in a row for one hop (visit of '
                                 '%s)' % v['url'])
+                    if auth_total > 1:
+                        # every URL of the scenario is on one host: the statement's "plus
+                        # one authentication retry" per visit
+                        return ('%d authentication retries in one visit of %s (answers %s)'
+                                % (auth_total, v['url'], [r[2] for r in reqs]))
                 else:
                     return 'request issued after a final answer %s within one session' % prev
             if follow > mr:
                 return ('%d redirect follow-ups in one session, limit is %d (answers %s)'
                         % (follow, mr, [r[2] for r in reqs]))
-            if len(reqs) > 2 * (mr + 1):
-                return '%d requests in one session (limit %d redirects)' % (len(reqs), mr)
+            if len(reqs) > mr + 2:
+                return ('%d requests in one session (limit: 1 + %d redirect follow-ups + 1 '
+                        'authentication retry)' % (len(reqs), mr))
     for u, n in per_url.items():
         if n > tries:
             return '%s was attempted %d times, --tries is %d' % (u, n, tries)
